@@ -12,9 +12,9 @@ RULE = ('every kind of generated deck (flat partitions with complements and empt
         'reader parses the written bytes and evaluates WellFormed clause by clause (ids unique, references defined, '
         'declared counts, no surface on both sides, one composition per non-virtual volume, COMPOSITION count, '
         'finite numbers). Non-trivial = file has at least one UNION/INTE operator; distinct = distinct (deck, options).')
-NOT_PROVED = ['write/parse round trip is a theorem for VOLU lines only (volume_line_roundtrip, at the level of words: that '
-              'splitting the joined line at blanks gives the words back is not proved); SURF / TRANSFORM lines carry floats '
-              '(opaque in the kernel) and the COMPOSITION / GEOMCOMP / BOUNDARY_CONDITION blocks have no writer model: '
+NOT_PROVED = ['write/parse round trip is a theorem for VOLU lines (volume_line_roundtrip on words, volume_line_text_roundtrip '
+              'from the text of the line) and for GEOMCOMP lines (geomcomp_line_roundtrip); SURF / TRANSFORM lines carry floats '
+              '(opaque in the kernel) and the COMPOSITION / BOUNDARY_CONDITION blocks have no writer model: '
               'checked per file by the fidelity stream (the Lean reader must find in the bytes exactly the dictionaries '
               'writeT4Geometry was handed)',
               'ids unique / one composition per volume / finite numbers: properties of the writers, '
